@@ -1,5 +1,6 @@
 """C12 -- time steps follow the documented adaptive rule and its bounds."""
 from pyvc.harness import Unit
+from pyvc import harness as _h
 from checks import update_common as uc, init_common as ic
 
 PROPERTY = "C12"
@@ -13,18 +14,20 @@ EXPLANATION = "loop invariant with ghost multiplier power on the real retry loop
 F = "tdgl.solver.solver:TDGLSolver."
 
 
-def units():
-    return [
-        Unit("adaptive_euler_step[adaptive]", F + "adaptive_euler_step", lambda m=None: uc.run_retry(m, True), props=["C12"], timeout=600),
-        Unit("adaptive_euler_step[fixed]", F + "adaptive_euler_step", lambda m=None: uc.run_retry(m, False), props=["C12"], timeout=600),
-    ]
+
+def _bounded_quick():
+    from checks import update_native as un
+    b1, n1 = un.retry_cases(0)
+    b2, n2 = un.window_cases(0)
+    b3, n3 = un.init_cases(0)
+    return b1 + b2 + b3, n1 + n2 + n3
 
 
 def _upd(screening, dynamic):
     return lambda m=None: uc.run_update(m, screening, dynamic, prefixes=("C12.",))
 
 
-def units():  # noqa: F811
+def units():
     return [
         Unit("adaptive_euler_step[adaptive]", F + "adaptive_euler_step", lambda m=None: uc.run_retry(m, True), props=["C12"], timeout=600),
         Unit("adaptive_euler_step[fixed]", F + "adaptive_euler_step", lambda m=None: uc.run_retry(m, False), props=["C12"], timeout=600),
@@ -35,6 +38,8 @@ def units():  # noqa: F811
         Unit("_run_stage[save, update raises]", "tdgl.solver.runner:Runner._run_stage", lambda m=None: _stage_raises(m), props=["C12", "C15"], timeout=900),
         Unit("TDGLSolver.__init__[no seed]", F + "__init__", lambda m=None: ic.run_init(m, prefixes=("C12.",)), props=["C12"], timeout=900),
         Unit("TDGLSolver.__init__[seed solution]", F + "__init__", lambda m=None: ic.run_init(m, prefixes=("C12.",), seeded=True), props=["C12"], timeout=900),
+        _h.bounded_unit("step rule on real updates [bounded]", "tdgl.solver.solver:TDGLSolver.update / adaptive_euler_step / __init__ (real)", "C12", _bounded_quick,
+                        "retry_window_and_initial_step_rules_on_the_real_solver", timeout=900),
     ]
 
 
@@ -54,6 +59,9 @@ def replay_scope(unit, obl):
 
 def replay(unit, obl):
     from checks import update_native
+    if "bounded" in unit:
+        bad, n = _bounded_quick()
+        return dict(confirmed=bool(bad), failing_input=(bad or [None])[0], evaluations=n)
     if unit.startswith("TDGLSolver.__init__"):
         return update_native.replay_init(unit, obl)
     if unit.startswith("_run_stage"):
